@@ -37,8 +37,10 @@ import zlib
 import kazoo.exceptions
 import kazoo.retry
 
+from treadmill import context
 from treadmill import zknamespace as z
 from treadmill import zkutils
+from treadmill.sproc import trace as sproc_trace
 from treadmill.trace import _zk
 from treadmill.trace.app import events as app_events
 from treadmill.trace.app import zk as app_zk
@@ -86,6 +88,30 @@ FAMILY_ORDER = ('trace', 'finished', 'server')
 FAULT_KINDS = ('stop', 'connloss', 'expired')
 
 
+class _PassDone(BaseException):
+    """Raised by the driver's time.sleep(): one iteration of the loop done."""
+
+
+class _DriverTime(object):
+    """`time` of treadmill.sproc.trace while the real `cleanup` command
+    runs: the virtual clock, and the sleep between two iterations ends the
+    pass."""
+
+    def __init__(self, clock):
+        self._clock = clock
+        self.slept = None
+
+    def time(self):
+        return self._clock.time()
+
+    def sleep(self, seconds):
+        self.slept = seconds
+        raise _PassDone()
+
+    def __getattr__(self, name):
+        return getattr(self._clock, name)
+
+
 class ArchiverStopped(BaseException):
     """The archiver process dies at this write. A BaseException so that no
     `except Exception` of the code under test can 'survive' it (the role of
@@ -104,7 +130,7 @@ def _fault(kind, text):
 # Module-level containers of the modules under test = in-memory state of the
 # archiver process. Captured once at import (pristine process), restored at
 # the start of every case and whenever the process is restarted.
-_MODULES = (app_zk, _zk, server_zk)
+_MODULES = (app_zk, _zk, server_zk, sproc_trace)
 
 
 def module_state():
@@ -597,8 +623,6 @@ class World(object):
         self.fired = False
         self.nwrites = 0
         self.oplog = []
-        zkc = self.archiver
-        par = self.params
         outcome = 'completed'
         clock = self.clock
 
@@ -615,16 +639,10 @@ class World(object):
         try:
             with vclock.Installed(self.clock, [app_zk]):
                 try:
-                    app_zk.cleanup_trace(zkc, par['trace_batch'],
-                                         par['trace_expire'])
-                    app_zk.cleanup_finished(zkc, par['finished_batch'],
-                                            par['finished_expire'])
-                    app_zk.cleanup_trace_history(zkc, par['trace_hist_max'])
-                    app_zk.cleanup_finished_history(
-                        zkc, par['finished_hist_max'])
-                    server_zk.cleanup_server_trace(zkc, par['trace_batch'])
-                    server_zk.cleanup_server_trace_history(
-                        zkc, par['trace_hist_max'])
+                    if self.case.get('driver'):
+                        self._driver_pass()
+                    else:
+                        self._direct_pass()
                 except ArchiverStopped:
                     outcome = 'stopped'
                 except kazoo.exceptions.KazooException:
@@ -635,6 +653,52 @@ class World(object):
             kazoo.retry.KazooRetry = real_retry
         self.fault_at = None
         return outcome, self.nwrites
+
+    def _direct_pass(self):
+        """The calls of sproc.trace's loop, made by the harness."""
+        zkc = self.archiver
+        par = self.params
+        app_zk.cleanup_trace(zkc, par['trace_batch'], par['trace_expire'])
+        app_zk.cleanup_finished(zkc, par['finished_batch'],
+                                par['finished_expire'])
+        app_zk.cleanup_trace_history(zkc, par['trace_hist_max'])
+        app_zk.cleanup_finished_history(zkc, par['finished_hist_max'])
+        server_zk.cleanup_server_trace(zkc, par['trace_batch'])
+        server_zk.cleanup_server_trace_history(zkc, par['trace_hist_max'])
+
+    def _driver_pass(self):
+        """One iteration of the real driver: the click command
+        `treadmill.sproc.trace cleanup --no-lock` with every option given on
+        its command line; context.GLOBAL.zk.conn is the archiver's session;
+        the loop is left at its time.sleep(interval)."""
+        par = self.params
+        args = [
+            'cleanup', '--no-lock',
+            '--interval', str(par.get('interval', 60)),
+            '--trace-evictions-max-count', str(par.get('evict_max', 1000)),
+            '--trace-service-events-max-count',
+            str(par.get('svc_max', 2000)),
+            '--trace-batch-size', str(par['trace_batch']),
+            '--trace-expire-after', str(par['trace_expire']),
+            '--trace-history-max-count', str(par['trace_hist_max']),
+            '--finished-batch-size', str(par['finished_batch']),
+            '--finished-expire-after', str(par['finished_expire']),
+            '--finished-history-max-count', str(par['finished_hist_max']),
+        ]
+        drv_time = _DriverTime(self.clock)
+        saved_time = sproc_trace.time
+        saved_conn = context.GLOBAL.zk._conn  # pylint: disable=W0212
+        sproc_trace.time = drv_time
+        context.GLOBAL.zk.conn = self.archiver
+        try:
+            sproc_trace.init().main(args=args, prog_name='trace',
+                                    standalone_mode=False)
+            raise AssertionError('the cleanup command returned')
+        except _PassDone:
+            pass
+        finally:
+            sproc_trace.time = saved_time
+            context.GLOBAL.zk.conn = saved_conn
 
     def fingerprint(self):
         """Everything check() and a further run depend on, except the clock:
